@@ -8,66 +8,31 @@ from __future__ import annotations
 
 from ..report import Report, Violation
 from ..runs import describe_path, events, run_helper
+from . import provrun
 from ..values import CLS, FRESH, GLOBAL, Const, vrepr
-from .base import get_ctx, immutable_reprs, pmap, wkey
+from .base import get_ctx, immutable_reprs, is_imm, pmap, wkey
 
-FAMILIES_FOR_SCALAR = (None, "sequence", "mapping", "set")
-
-
-def _keep(trace, ev):
-    """Trace reducer: the *set* of writes to not-purely-fresh objects (value fields dropped)."""
+def _keep(ev):
+    """The *set* of writes to not-purely-fresh objects (value fields dropped)."""
     if ev[0] != "W" or tuple(ev[3]) == (FRESH,):
-        return trace
-    from ..values import Event
-    n = Event(("W", ev[1], ev[2], ev[3], None, None, None, (), ev[8], ev[9]))
-    if n in trace:
-        return trace
-    return tuple(sorted(trace + (n,), key=repr))
+        return None
+    return ("W", ev[1], ev[2], ev[3], None, None, None, (), ev[8], ev[9])
 
 
-_keep.is_reducer = True
+RED = provrun.set_reducer(_keep)
 
 
 def tasks(ctx):
-    out = []
-    for hid, h in ctx.helpers.items():
-        for shape in ("given", "default"):
-            if h.family == "scalar":
-                import ast as _ast
-                direct = any(isinstance(n, _ast.Name) and n.id == "prepare_attr_value"
-                             for n in _ast.walk(h.impl.node))
-                for fam in FAMILIES_FOR_SCALAR:
-                    # collection-typed attribute: the whole-collection preparation runs inside
-                    # prepare_attr_value; helpers that only reach it through another helper are
-                    # covered by that helper's run (all families in the thorough tier)
-                    if fam is None or direct or ctx.thorough:
-                        out.append((hid, shape, fam))
-            else:
-                out.append((hid, shape, None))
-    return out
+    return provrun.helper_tasks(ctx) + provrun.keyed_tasks(ctx)
 
 
 def worker(task):
-    hid, shape, fam = task
     ctx = get_ctx()
-    h = ctx.helpers[hid]
-
-    def conf(cfg):
-        cfg.event_filter = _keep
-        cfg.loop_unroll = 1     # the rule is about the *set* of writes: one symbolic iteration covers it
-        if fam is not None:
-            cfg.scalar_family = fam
-    conf.__name__ = f"c01_{fam}"
-    from ..scenarios import SpecProtocol
-    extra = {("truthy", ("attr_spec", ".is_collection")): fam is not None} if h.family == "scalar" else None
-    it, outs = run_helper(ctx.p, ctx.H, h, inplace=False, shape=shape, frozen=False, do_not_copy=False,
-                          configure=(lambda cfg: (conf(cfg), _set_family(cfg, ctx, fam))), extra_facts=extra,
-                          cache=False)
-    viols, classwrites, npaths, nontriv, userwrites = [], set(), 0, set(), set()
-    for o in outs:
-        npaths += 1
-        imm = immutable_reprs(o.state.facts)
-        ws = events(o, "W")
+    r = provrun.run(task, RED, inplace=False)
+    viols, classwrites, userwrites = [], set(), set()
+    nontriv = set()
+    for p in r["paths"]:
+        ws = [e for e in p["trace"] if e[0] == "W"]
         if ws:
             nontriv.add(tuple((e[1], e[2], e[3], e[-1]) for e in ws))
         for e in ws:
@@ -77,36 +42,18 @@ def worker(task):
             if prov <= {CLS, GLOBAL}:
                 classwrites.add((e[1], e[2], e[4], e[-1]))
                 continue
-            if e[2] in imm:
+            if is_imm(e[2], p["imm"]):
                 continue   # target is an immutable atom on this path: the write cannot succeed
             if not (prov & {"RECV", "ARG"}):
                 userwrites.add((e[1], e[2], e[-1]))   # result of a user callback: not receiver/argument state
                 continue
             viols.append({"key": wkey(ctx.p, "C01.W", e), "site": e[-1], "prov": sorted(prov), "how": e[1],
-                          "target": e[2], "via": e[8], "entry": f"{hid}[{shape},{fam}]",
-                          "path": describe_path(o)})
-    sample = None
-    if outs:
-        o = outs[0]
-        sample = {"entry": f"{hid}[{shape},{fam}]", "outcome": o.kind, "events": describe_path(o, 6)}
-    return {"task": task, "paths": npaths, "nontrivial": len(nontriv), "viols": viols,
-            "classwrites": sorted(classwrites), "userwrites": sorted(userwrites), "functions": sorted(it.functions_entered),
-            "call_sites": len(it.call_sites), "sample": sample, "unclassified": sorted(it.unclassified)}
-
-
-def _set_family(cfg, ctx, fam):
-    """For scalar helpers on a collection-typed attribute, resolve get_collection_mutator."""
-    if fam is None:
-        return
-    from ..scenarios import MUTATOR_OF
-    from ..values import ClassV, PartialO, Ref, Sym
-    mc = ctx.p.find_class(MUTATOR_OF[fam])
-
-    def hook(interp, st, objv, attr, site):
-        if isinstance(objv, Sym) and objv.tok == ("attr_spec",) and attr == "get_collection_mutator":
-            return Ref(st.alloc("partial:get_collection_mutator", PartialO(ClassV(mc), (objv,), {})))
-        return None
-    cfg.attr_hooks.insert(0, hook)
+                          "target": e[2], "via": e[8], "entry": r["entry"], "path": p["desc"]})
+    r["viols"] = viols
+    r["classwrites"] = sorted(classwrites)
+    r["userwrites"] = sorted(userwrites)
+    r["nontrivial"] = len(nontriv)
+    return r
 
 
 def if_worker(hid):
@@ -131,28 +78,18 @@ def check(ctx, rep: Report):
     results = pmap(worker, tasks(ctx))
     classwrites = set()
     for r in results:
-        hid, shape, fam = r["task"]
-        rep.entry_points.add(hid)
-        rep.evaluations += r["paths"]
-        rep.functions |= set(r["functions"])
-        rep.extra["call_sites_n"] = rep.extra.get("call_sites_n", 0) + r["call_sites"]
+        provrun.absorb(rep, r)
         for cw in r["classwrites"]:
             classwrites.add(tuple(cw))
         for uw in r["userwrites"]:
             rep.extra.setdefault("writes_to_user_callback_results", set()).add(tuple(uw))
-        if r["sample"]:
-            rep.sample(r["sample"])
-        for n in range(r["nontrivial"]):
-            rep.nontrivial.add((hid, shape, fam, n))
-        rep.oblige("C01.W", f"{hid}[{shape},{fam}]", not r["viols"],
-                   f"{r['paths']} paths" + (f"; {len(r['viols'])} offending writes" if r["viols"] else ""))
+        rep.oblige("C01.W", r["entry"], not r["viols"],
+                   f"{len(r['paths'])} paths" + (f"; {len(r['viols'])} offending writes" if r["viols"] else ""))
         for v in r["viols"]:
             fn, stmt = ctx.p.stmt_at(v["site"])
             rep.violate(Violation("C01.W", v["key"],
                                   f"{v['how']} on {'+'.join(v['prov'])} object `{v['target']}` with _inplace=False: `{stmt}`",
                                   v["site"], fn, v["path"], v["entry"]))
-        for u in r["unclassified"]:
-            rep.notes.append(f"unclassified external call assumed pure: {u}")
     rep.extra["class_or_global_writes"] = sorted(map(list, classwrites))[:40]
     rep.extra["writes_to_user_callback_results"] = sorted(map(list, rep.extra.get("writes_to_user_callback_results", ())))[:40]
     for rows in pmap(if_worker, list(ctx.helpers)):
